@@ -31,8 +31,11 @@ def check_tie_pass(ck, sources, label, max_programs=None, violation_limit=3):
             cnt["real-checker-crash-or-export-failed"] = cnt.get("real-checker-crash-or-export-failed", 0) + 1
             continue
         m = ml.get(f"t{i}", "(no-result)").strip()
-        if m == "(same)":
+        if m.startswith("(same)"):
             kind = "accepted: same typed program"
+            if "(sound-fragment 1)" in m:
+                cnt["accepted and in the fragment where acceptance => Wt.v is proved (in_sound_fragment)"] = \
+                    cnt.get("accepted and in the fragment where acceptance => Wt.v is proved (in_sound_fragment)", 0) + 1
         elif m.startswith("(same-reject"):
             kind = "rejected by both"
         elif m in ("(outside)", "(nofuel)"):
